@@ -20,6 +20,21 @@ CLAIMED = {
    note="Assumed: interface contracts of types.Resource (ghost count of calls), getters of ClusterInfo/ResourceManager and metrics are effect-free. Not covered yet: pool NewStream/OnDestroyStream pairing, downstream gauges (requestMetrics), histories across goroutines.",
    technique="contract-based deductive verification (WP over go/ssa, SMT) with ghost call-balance counters",
    design="5/C10"),
+ "C05": dict(
+   text="Proof level per policy: ChooseHost of round robin, random, request round robin, maglev (membership and only-healthy), the EDF-based policies (weighted round robin, least request, least connection) with their fallbacks, and the shared health-aware scan are verified against the statement's own oracle over an abstract host set - result is nil or a member; if any member is healthy the result is non-nil and healthy - for every set size, health pattern, random draw and counter value, with unbounded loop invariants (rotation scans via remainder lemmas).",
+   note="Assumed: interface contracts of types.HostSet/Host (sequence view, Health() a stable pure read during one lookup), the EDF scheduler only returns items that were added (trusted until C06's heap is under contract), function-typed fallback fields hold functions satisfying the field contract (each bound function is verified against it), context-variable retry index is a valid index when set. Not covered: peak-EWMA's own fallbacks, subset balancer (C15), snapshot publication on host-set replacement, health flips during a lookup.",
+   technique="contract-based deductive verification (WP over go/ssa, SMT) against interface contracts with abstract spec functions",
+   design="5/C05"),
+ "C07": dict(
+   text="Proof level on every xprotocol Decode: for all byte strings, Decode of bolt, boltv2-delegation-excluded bolt v1, dubbo, dubbo-thrift and tars answers (nil,nil) and leaves the buffer untouched exactly while fewer bytes than the announced frame length are buffered (staged need(B) read off the fixed header), and otherwise consumes exactly that length or fails without consuming; the bolt request/response decoders and dubbo's decodeFrame are verified with the same clauses; each decodeFrame-style callee's precondition 'the whole frame is buffered' is an obligation at its call site.",
+   note="Assumed: api.IoBuffer contract (abstract content slice; Drain/Write/Bytes/Len), thrift/hessian/tars library calls (dubbothrift.decodeFrame, tars decodeRequest/decodeResponse, dubbo getServiceAwareMeta are trusted contracts). Not covered yet: boltv2 decoders, protocol matchers, streamConn.Dispatch loop, HTTP/1 and HTTP/2 extraction, the composition lemma over segmentations.",
+   technique="contract-based deductive verification (WP over go/ssa, SMT) with byte-level memory model and big-endian spec functions",
+   design="5/C07"),
+ "C08": dict(
+   text="Proof level on decoder safety: the same functions as C07 plus the bolt header codec (mosn.io/pkg/header.DecodeHeader, verified from the module-cache source with a loop invariant and a decreases clause) and TarsGo's length classifier carry automatic obligations for every slice/index/nil/division/make site (no panic for any input, every slice of the input within len, loops terminate), and Decode must answer an impossible length with an error rather than need-more.",
+   note="Known finding (dependency, cannot be fixed in /repo): header.decodeStr panics on 1-3 dangling bytes. Assumed: as C07. Not covered: process-level containment (GoWithRecover), HTTP/2 framer and HPACK, matchers.",
+   technique="contract-based deductive verification: automatic safety obligations (bounds, nil, within-len, termination) from go/ssa, discharged by SMT",
+   design="5/C08"),
 }
 NA = {
  "C11": "quantifies over the arrival time of a signal relative to in-flight requests across two processes (fd passing, drain timers): crash points and schedules of the whole runtime; no function whose pre/postcondition states it (DESIGN.md section 6)",
